@@ -13,8 +13,13 @@ cp seeded/seeded_demo.sh "$OUT/seeded_demo.sh" 2>/dev/null
 cp seeded/notes.md "$OUT/notes.md" 2>/dev/null
 DEMO=ruzstd/tests/seeded_demo.rs
 if [ -f seeded/seeded_demo.sh ]; then
-  [ -f ruzstd/tests/seeded_demo.sh ] || cp seeded/seeded_demo.sh ruzstd/tests/seeded_demo.sh
-  rundemo() { bash ruzstd/tests/seeded_demo.sh; }
+  if grep -q 'BASH_SOURCE.*/\.\./\.\.' seeded/seeded_demo.sh; then
+    # the script locates the worktree two levels above itself (it was written as ruzstd/tests/seeded_demo.sh)
+    mkdir -p ruzstd/tests; [ -f ruzstd/tests/seeded_demo.sh ] || cp seeded/seeded_demo.sh ruzstd/tests/seeded_demo.sh
+    rundemo() { bash ruzstd/tests/seeded_demo.sh; }
+  else
+    rundemo() { bash seeded/seeded_demo.sh; }
+  fi
 else
   [ -f "$DEMO" ] || cp seeded/seeded_demo.rs "$DEMO"
   rundemo() { cargo test -p ruzstd --offline ${DEMO_ARGS:-} --test seeded_demo; }
